@@ -226,6 +226,8 @@ def write_script(d: Path, resps: list[dict]) -> None:
             (d / "resp" / f"{i}.run").write_text("")
         if "errtext" in r:
             (d / "resp" / f"{i}.errtext").write_text(r["errtext"])
+        if r.get("corrupt"):
+            (d / "resp" / f"{i}.corrupt").write_text("")
 
 
 def read_calls(d: Path) -> list[list[str]]:
@@ -288,13 +290,41 @@ def _child_one(case: dict, workdir: Path) -> dict:
                 obs["verdict"] = {"kind": "raised", "cls": type(e).__name__, "msg": str(e)}
             obs["result_exists"] = (cache / job.checksum / "_result.pklz").exists()
         else:
+            inject = case.get("inject")  # raise injection inside the batch script's Job.run (guarded hook point)
+            if inject:
+                os.environ["NIPYPE_PYDRA_VERIF_RAISE"] = inject
             try:
                 r = sub(task, raise_errors=True)
                 out = getattr(r.outputs, "out", None)
                 obs["final"] = {"kind": "complete", "errored": bool(r.errored), "out": out if isinstance(out, int) else repr(out)}
             except Exception as e:  # noqa: BLE001
                 obs["final"] = {"kind": "raised", "cls": type(e).__name__, "msg": str(e)[:2000]}
+            finally:
+                os.environ.pop("NIPYPE_PYDRA_VERIF_RAISE", None)
             obs["result_files"] = sorted(str(p.relative_to(cache)) for p in cache.glob("*/_result.pklz"))
+            # what the batch script's interpreter left behind (load_and_run): result / error files with their flags
+            import cloudpickle as cp
+
+            left = {}
+            for rp in sorted(cache.glob("**/_result.pklz")):
+                try:
+                    with open(rp, "rb") as fp:
+                        res = cp.load(fp)
+                    left[str(rp.parent.relative_to(cache))] = {"errored": bool(getattr(res, "errored", None)), "has_outputs": getattr(res, "outputs", None) is not None}
+                except Exception as e:  # noqa: BLE001
+                    left[str(rp.parent.relative_to(cache))] = {"unreadable": type(e).__name__}
+            obs["results"] = left
+            obs["error_files"] = sorted(str(p.parent.relative_to(cache)) for p in cache.glob("**/_error.pklz"))
+            se = sched / "script.err"
+            if se.exists():
+                import re as _re
+
+                # class of the exception the batch script's interpreter finally died of: the last non-indented
+                # `Name: message` line of its stderr (notes added to an exception are indented)
+                excs = [m.group(1) for l in se.read_text(errors="replace").splitlines() if (m := _re.match(r"^([A-Za-z_][\w.]*)(?::|$)", l))]
+                obs["script_exc"] = excs[-1].split(".")[-1] if excs else None
+                rcf = sched / "script.rc"
+                obs["script_rc"] = int(rcf.read_text().strip()) if rcf.exists() else None
     obs["exhausted"] = (sched / "exhausted").exists()
     return obs
 
